@@ -27,6 +27,10 @@ OBLIGATIONS = [
     {"id": "C17.hash1", "harness": "harness/C17/hash1.c", "entry": "h_hash1", "units": ["sm9_key.c"], "unwind": 40, "timeout": 300,
      "title": "sm9_z256_hash1 absorbs 0x01 || the whole identity || hid || counter in both evaluations and reduces digest1 || digest2", "bounds": "identity length 1..8191 (symbolic), any hid",
      "stubs": ["sm3_*: call probe (pointer, length)", "sm9_z256_modn_from_hash: recorder"]},
+    {"id": "C17.signature_der", "harness": "harness/C17/sigder.c", "entry": "h_sig_der", "units": ["sm9_sign.c", "asn1.c", "sm9_z256.c"],
+     "remove": {"sm9_sign.c": ["sm9_do_verify", "sm9_do_sign"], "sm9_z256.c": RM + ["sm9_z256_point_to_uncompressed_octets", "sm9_z256_point_from_uncompressed_octets"]}, "unwind": 70, "timeout": 600,
+     "title": "SM9 signature DER: from_der(to_der(sig)) = sig, dry run = written = 104 bytes, exactly the encoding consumed, h >= N refused; sm9_verify_finish refuses trailing bytes and verifies exactly the decoded (h, S)",
+     "bounds": "all h, all point octets (abstract injective point codec), 0..2 trailing bytes", "stubs": ["point octet codec: abstract", "sm9_do_verify: arbitrary verdict, records its argument"]},
     {"id": "C17.sm9_encrypt_mac", "harness": "harness/C17/dec.c", "entry": "h_sm9_encrypt", "units": ["sm9_enc.c"],
      "remove": {"sm9_enc.c": ["sm9_kem_decrypt", "sm9_kem_encrypt", "sm9_do_decrypt", "sm9_encrypt", "sm9_decrypt", "sm9_ciphertext_to_der", "sm9_ciphertext_from_der", "sm9_ciphertext_print"]},
      "defs": ["-DCL=5"], "unwind": 40, "timeout": 300,
